@@ -451,6 +451,17 @@ CHECKS += [
          technique="lifted execution of fold_global / insert / the extrapolation fits on z3 terms; z3 QF_NRA equality proofs; structural position comparison"),
 ]
 
+CHECKS += [
+    dict(property_id="C60", category="other", engine=E1,
+         text="Partial (exact unbiasedness; device sampling is statistical): for a density matrix with SYMBOLIC entries on 1 and 2 qubits, the REAL ClassicalShadow "
+              "local_snapshots / global_snapshots / expval are evaluated on every (recipe, outcome) pair and averaged with the Born probabilities of the documented X/Y/Z "
+              "measurements; z3 proves for all states that the average snapshot equals rho and the average estimate of every Pauli word equals tr(rho P); each local factor is "
+              "compared with 3 * eigenprojector - identity.",
+         note=PROOF_NOTE + " Category 'other' (partial): generation of bits / recipes on the device, median-of-means over several snapshots and entropies are outside; identities hold up to "
+              "1e-6 because the library passes snapshot factors through complex64.",
+         technique="lifted weighting of real shadow snapshots with z3 state entries; z3 QF_NRA equality proofs (tolerance 1e-6)"),
+]
+
 _NOT_BUILT = "claimed in DESIGN.md §4 but its solver-based check is not built yet in this tree"
 NOT_APPLICABLE_REASONS = {
     "C04": "equality/hash: Python hash() of concrete payloads and tolerance-based allclose relations; no exact relation a solver can decide",
